@@ -816,7 +816,7 @@ class ConfigInformation:
         """Returns an iterarator over arguments and associated values"""
         for argument in self.xpmtype.arguments.values():
             if argument.name in self.values or (generated and argument.generator):
-                yield argument, self.values[argument.name]
+                yield argument, self.values.get(argument.name, None)
 
     def tags(self):
         class TagFinder(ConfigWalk):
